@@ -304,7 +304,7 @@ pub fn run(ctx: &Ctx) -> i32 {
     let ex = Excl { limit: ctx.open("seq.limit"), preceded: ctx.open("seq.preceded_by"), conds: ctx.open("seq.where"), equal_times: ctx.open("seq.equal_times"), no_compaction: ctx.open_any("compaction.partial_drain"), no_restart: ctx.open_any("crash.after_manual_flush_or_clean_restart") || ctx.open_any("crash.store_after_compaction_and_restart") };
     *EXCL.lock().unwrap() = Some(ex);
     crate::props::c02::KNOWN_ID_REUSE.store(ctx.open_any("layout.stale_cache_after_id_reuse"), std::sync::atomic::Ordering::Relaxed);
-    let cases = ctx.tier.pick(96, 1500);
+    let cases = ctx.tier.pick(240, 1500);
     let tier = ctx.tier;
     if let Some(f) = explore(ctx, "sequences", || case_strategy(tier, ex), Explore { cases, max_shrink_iters: ctx.tier.pick(100, 400), lanes: ctx.lanes }, &stats, run_case) {
         report.violations.push(f);
